@@ -143,4 +143,13 @@ PROPS["C18"] = dict(level="proof",
     level_note="Race freedom of Reload vs requests is exploration (race detector) — the schedule clause is partial.",
     technique="Coq induction over histories + exhaustive history correspondence + Go race detector runs")
 
+PROPS["C20"] = dict(level="proof", allowed_axioms=FLOCQ_AXIOMS, xtpl=True,
+    rule="template sets of 1-3 files (one in a sub-directory, plus a non-matching file) whose directive values contain 1-3 ${} blocks with keyword calls: plain name, receiver.field, parenthesised callee, wrapped in other calls; literals in all three quoting styles with escapes and either attribute delimiter; repeated and distinct occurrences; too few arguments, non-literal, parenthesised and empty msgids; default and custom -keywords, default and custom -attr_prefix; single-line blocks without tabs; non-trivial = at least one keyword call; distinct = distinct case lines",
+    streams=[dict(name="xtpl", family="xtpl", quick=400, thorough=20000, nontrivial=r"\(")],
+    trusted_base=TB_EXP + ["github.com/youthlin/t POT writer (its output is parsed back by the harness)", "os.DirFS / regexp (file selection)"],
+    modelled=["cmd/xtpl/main.go (extract, EnterPrimaryExpr, getFnName, doExtract, isStringLiteral, unquote)", "cmd/xtpl/models.go (keywords)"] + MOD_EXP,
+    assumptions=["single-line ${} blocks without tabs (column claim)", "each (context, msgid) is used with one plural form (the surviving plural otherwise depends on Go's map iteration order)"],
+    level_text="Theorems over the extractor model: an entry is produced exactly for keyword calls (by name, receiver.field or parenthesised callee) with enough arguments and a non-empty string-literal msgid, its text is the decoded literal - the value the evaluator passes at run time - referenced at the literal's position; too few arguments / non-literal msgids add nothing and the header entry is never overwritten; tied to the code by running the xtpl binary built from the working tree on generated template sets and diffing the parsed catalogue with the model and with the expectation known by construction.",
+    level_note="The POT writer and the merge of repeated keys (map iteration order) are outside the model.")
+
 NOT_YET = {}
